@@ -1,7 +1,9 @@
 SPECIFICATION TraceSpec
 CONSTANTS
   NProms = {1, 2}
-  LayoutIds = {1, 2, 3}
+  LayoutIds = {1, 2, 3, 4}
+  Eols = {"lf", "crlf"}
+  Priors = {"none", "expired"}
   Rules = {1, 2, 3, 4, 5, 6, 7, 8, 9, 10, 11}
   Scopes = {"rule", "file"}
   OnlyBasePairs = FALSE
